@@ -105,11 +105,13 @@ fn verify(der: &[u8], hashes: Vec<Sha256Digest>, now_unix: i64) -> Result<(), St
 
 /// `rest`: the other certificates the server sent behind the leaf (only the leaf may satisfy the pin)
 fn verify_chain(der: &[u8], rest: &[Vec<u8>], hashes: Vec<Sha256Digest>, now_unix: i64) -> Result<(), String> {
-    verify_chain_adds(der, rest, hashes, vec![], now_unix)
+    verify_chain_adds(der, rest, hashes, vec![], now_unix, None)
 }
 
 /// `adds`: digests given to the verifier one by one through add(), in this order, after construction
-fn verify_chain_adds(der: &[u8], rest: &[Vec<u8>], hashes: Vec<Sha256Digest>, adds: Vec<Sha256Digest>, now_unix: i64) -> Result<(), String> {
+/// `warm`: the same verifier has already been asked about the same leaf at this earlier time (one client configuration serves
+/// many handshakes): the verdict at `now_unix` must not depend on that history
+fn verify_chain_adds(der: &[u8], rest: &[Vec<u8>], hashes: Vec<Sha256Digest>, adds: Vec<Sha256Digest>, now_unix: i64, warm: Option<i64>) -> Result<(), String> {
     let mut v = ServerHashVerification::new(hashes);
     for a in adds {
         v.add(a);
@@ -117,6 +119,10 @@ fn verify_chain_adds(der: &[u8], rest: &[Vec<u8>], hashes: Vec<Sha256Digest>, ad
     let inter: Vec<rustls::pki_types::CertificateDer> = rest.iter().map(|d| rustls::pki_types::CertificateDer::from(d.clone())).collect();
     let ee = rustls::pki_types::CertificateDer::from(der.to_vec());
     let name = rustls::pki_types::ServerName::try_from("localhost").unwrap();
+    if let Some(w) = warm {
+        let earlier = rustls::pki_types::UnixTime::since_unix_epoch(std::time::Duration::from_secs(w as u64));
+        let _ = v.verify_server_cert(&ee, &inter, &name, &[], earlier);
+    }
     let now = rustls::pki_types::UnixTime::since_unix_epoch(std::time::Duration::from_secs(now_unix as u64));
     v.verify_server_cert(&ee, &inter, &name, &[], now).map(|_| ()).map_err(|e| format!("{e:?}"))
 }
@@ -151,7 +157,12 @@ fn direct(key: u8, validity_s: i64, now_offset: i64, from_end: bool, hashes: u8)
     let rest: Vec<Vec<u8>> = if hashes == 5 || hashes == 6 { vec![extra.0.clone()] } else { vec![] };
     let pinned = matches!(hashes, 1 | 3 | 6 | 7 | 8);
     let want = pinned && nb <= now && now <= na && validity_s <= 14 * DAY && key == 0;
-    let got = std::panic::catch_unwind(|| verify_chain_adds(der, &rest, set, adds, now)).map_err(|_| "verify_server_cert panicked".to_string())?;
+    let got = std::panic::catch_unwind(|| verify_chain_adds(der, &rest, set.clone(), adds.clone(), now, None)).map_err(|_| "verify_server_cert panicked".to_string())?;
+    // the same question put to a verifier that has seen this leaf before, in the middle of its validity period
+    let again = std::panic::catch_unwind(|| verify_chain_adds(der, &rest, set, adds, now, Some(nb + validity_s / 2))).map_err(|_| "verify_server_cert panicked".to_string())?;
+    if got.is_ok() != again.is_ok() {
+        return Err(format!("verdict depends on the verifier's history: fresh verifier {got:?}, verifier that saw the leaf at mid-validity {again:?} (now-not_before={}s now-not_after={}s validity={validity_s}s)", now - nb, now - na));
+    }
     match (want, got) {
         (true, Ok(())) => Ok("accepted".into()),
         (false, Err(_)) => Ok("refused".into()),
